@@ -3,7 +3,7 @@ Tseitin encoding from formulae in holpy to CNF.
 """
 
 from kernel.type import BoolType
-from kernel.term import Term, Var, And, Or, Not, Implies, Eq
+from kernel.term import Term, Var, And, Or, Not, Implies, Eq, true, false
 from kernel.thm import Thm
 from kernel import term_ord
 from kernel.proofterm import ProofTerm
@@ -75,6 +75,15 @@ def encode(t):
     for eq_pt in eq_pts:
         if is_logical(eq_pt.rhs):
             encode_pt = logic.apply_theorem('conjI', eq_pt, encode_pt)
+        elif eq_pt.rhs == true:
+            # The constants are not atoms: x = true gives the clause x
+            unit_pt = eq_pt.symmetric().equal_elim(logic.apply_theorem('trueI'))
+            encode_pt = logic.apply_theorem('conjI', unit_pt, encode_pt)
+        elif eq_pt.rhs == false:
+            # ... and x = false gives the clause ~x
+            x_pt = ProofTerm.assume(eq_pt.lhs)
+            unit_pt = logic.apply_theorem('negI', eq_pt.equal_elim(x_pt).implies_intr(eq_pt.lhs))
+            encode_pt = logic.apply_theorem('conjI', unit_pt, encode_pt)
     
     # Rewrite using Tseitin rules
     encode_thms = ['encode_conj', 'encode_disj', 'encode_imp', 'encode_eq', 'encode_not']
